@@ -105,6 +105,9 @@ type Core struct {
 	rng       *kernel.Rand
 	k, opc    []byte
 	cfgErr    string
+	// serving PLMN: the configured one, or - after a second NG Setup the scenario announces - that one
+	servMCC, servMNC string
+	nSetups          int
 
 	cur *Result
 	now int64
@@ -113,6 +116,7 @@ type Core struct {
 func New(s *scn.Scenario) *Core {
 	c := &Core{S: s, byRan: map[int64]*UE{}, byAmf: map[int64]*UE{}, bySUPI: map[string]*UE{}}
 	c.PLMN = nas.EncodePLMN(s.Config.MCC, s.Config.MNC)
+	c.servMCC, c.servMNC = s.Config.MCC, s.Config.MNC
 	c.rng = kernel.New(s.UESeed)
 	var err error
 	c.k, err = hex.DecodeString(s.Config.K)
@@ -259,7 +263,7 @@ func (c *Core) checkTable(p *ngap.PDU, spec []ngap.IESpec) {
 func (c *Core) checkPLMN(rule string, got []byte, what string) {
 	if !bytes.Equal(got, c.PLMN) {
 		mcc, mnc, err := nas.DecodePLMN(got)
-		c.viol(rule, "%s is %x (mcc=%s mnc=%s err=%v), configured PLMN %s/%s encodes as %x", what, got, mcc, mnc, err, c.S.Config.MCC, c.S.Config.MNC, c.PLMN)
+		c.viol(rule, "%s is %x (mcc=%s mnc=%s err=%v), configured PLMN %s/%s encodes as %x", what, got, mcc, mnc, err, c.servMCC, c.servMNC, c.PLMN)
 	}
 }
 
@@ -288,8 +292,19 @@ func (c *Core) ngSetup(p *ngap.PDU) {
 	c.checkCrit(p, ngap.Reject)
 	c.checkTable(p, ngSetupRequestIEs)
 	cfg := c.S.Config
+	c.nSetups++
 	if c.SetupDone {
-		c.viol("ngap.unexpected", "second NGSetupRequest on the association")
+		if rp := c.S.ResetupPLMN; c.nSetups == 2 && len(rp) >= 5 {
+			// the gNB sets the interface up again, now serving another PLMN (TS 38.413 8.7.1: the
+			// procedure re-initialises the interface and releases the UE contexts)
+			c.servMCC, c.servMNC = rp[:3], rp[3:]
+			c.PLMN = nas.EncodePLMN(c.servMCC, c.servMNC)
+			for _, u := range c.UEs {
+				u.State = StGone
+			}
+		} else {
+			c.viol("ngap.unexpected", "second NGSetupRequest on the association")
+		}
 	}
 	if ie := p.Find(ngap.IDGlobalRANNodeID); ie != nil {
 		g, err := ngap.DecGlobalRANNodeID(ie.Val)
@@ -477,7 +492,6 @@ func (c *Core) registrationRequest(ranID int64, plain []byte) {
 	}
 	ue.RegReq = plain
 	// identity
-	cfg := c.S.Config
 	s, err := nas.DecodeSUCI(u.Identity)
 	c.cur.Info["identity"] = hex.EncodeToString(u.Identity)
 	if err != nil {
@@ -534,7 +548,7 @@ func (c *Core) registrationRequest(ranID int64, plain []byte) {
 	sqn := mustHex(ue.P.SQN, 6, "sqn")
 	amf := mustHex(ue.P.AMFField, 2, "amf")
 	k, opc := c.credsOf(ord)
-	ue.AKA = crypto.Derive5GAKA(k, opc, rnd, sqn, amf, crypto.SNName(cfg.MCC, cfg.MNC), ue.SUPI, []byte{0, 0})
+	ue.AKA = crypto.Derive5GAKA(k, opc, rnd, sqn, amf, crypto.SNName(c.servMCC, c.servMNC), ue.SUPI, []byte{0, 0})
 	msg := nas.AuthenticationRequest(byte(ue.P.NgKSI), []byte{0, 0}, rnd, ue.AKA.AUTN)
 	ies := []ngap.IE{
 		{ngap.IDAMFUENGAPID, ngap.Reject, ngap.EncAMFUENGAPID(ue.AmfID)},
@@ -919,11 +933,10 @@ func (c *Core) smcComplete(ue *UE, env nas.Envelope) {
 		}
 	}
 	ue.State = StICSPending
-	cfg := c.S.Config
 	a := c.S.AMF
 	var ro nas.RegAcceptOptions
 	tm := mustHex(ue.P.TMSI, 4, "tmsi")
-	g := &nas.GUTI{MCC: cfg.MCC, MNC: cfg.MNC, Region: byte(a.Region), SetID: uint16(a.SetID), Pointer: byte(a.Pointer)}
+	g := &nas.GUTI{MCC: c.servMCC, MNC: c.servMNC, Region: byte(a.Region), SetID: uint16(a.SetID), Pointer: byte(a.Pointer)}
 	copy(g.TMSI[:], tm)
 	if ue.P.RegAccOpt&1 == 0 {
 		ro.GUTI = g
@@ -1082,7 +1095,6 @@ func (c *Core) protectedUplink(ue *UE, env nas.Envelope) {
 		}
 		ue.gotRegCmpl = true
 		c.maybeRegistered(ue)
-		cfg := c.S.Config
 		a := c.S.AMF
 		var ind *byte
 		var g *nas.GUTI
@@ -1091,7 +1103,7 @@ func (c *Core) protectedUplink(ue *UE, env nas.Envelope) {
 			ind = &v
 		}
 		if ue.P.CUCOpt&2 != 0 {
-			g = &nas.GUTI{MCC: cfg.MCC, MNC: cfg.MNC, Region: byte(a.Region), SetID: uint16(a.SetID), Pointer: byte(a.Pointer)}
+			g = &nas.GUTI{MCC: c.servMCC, MNC: c.servMNC, Region: byte(a.Region), SetID: uint16(a.SetID), Pointer: byte(a.Pointer)}
 			copy(g.TMSI[:], mustHex(ue.P.TMSI, 4, "tmsi"))
 		}
 		msg := c.protectDL(ue, 2, nas.ConfigurationUpdateCommand(ind, g))
